@@ -2,6 +2,7 @@
 import Verif.Common.Proto
 import Verif.C18.Model
 import Verif.C18.Api
+import Verif.C18.Spec
 open Lean Verif.Proto Verif.C18
 
 namespace Verif.C18.Driver
@@ -121,7 +122,12 @@ def handle (j : Json) : Except String Json := do
           let im ← ofIm im
           pure (jScore (cliCompute ⟨a, b, c, d, e, im⟩ golds tests))
         | _ => pure Json.null
-      pure (Json.mkObj [("totals", tot), ("score", sc), ("score_info", sci), ("trace", trj), ("cli", cli)])
+      -- `_accumulate` on the declarative triple collections of Spec.lean (compared inside the input space)
+      let spec := match accumulateSpec ig it golds tests with
+        | .ok m => jMatch m
+        | .error e => jErr (errTag e)
+      pure (Json.mkObj [("totals", tot), ("score", sc), ("score_info", sci), ("trace", trj), ("cli", cli),
+                        ("spec_totals", spec)])
     | _ => throw "need five weights"
   | _ => throw s!"bad op {op}"
 
